@@ -1,6 +1,7 @@
 import Driver.Util
 import HeimdallModel.Model.MechTypes
 import HeimdallModel.Model.MechTemplate
+import HeimdallModel.Model.MechClient
 import HeimdallModel.Model.Footprint
 import HeimdallModel.Gen.Footprints
 -- @family mech
@@ -131,7 +132,36 @@ def wants (eff req : Json) : Json × Nat :=
     let outs := srcs.map fun src => (Tpl.renderOwn src (tplInputs req)).map String.join
     (Json.mkObj [("strs", jstrs ((outs.filterMap id).filter (· != ""))), ("fails", outs.any (·.isNone))], srcs.length)
 
+/-! ### what an execution sends to the endpoint of its mechanism (`Model/MechClient.lean`)
+
+For an object whose endpoint is one of the observed ones (`…/count/…`): the settings `Endpoint.CreateClient` reads off
+the object's OWN effective configuration (`retry`, `http_cache`), whether the request can be answered by the HTTP cache
+layer at all (GET without payload), and `cache_ttl` of the mechanism.  `…/count/busy/…` answers 503 to everything. -/
+
+def clientObj (goType : String) (eff : Json) : Option Client.Obj :=
+  let ep := match eff.getObjVal? "endpoint" with
+    | .ok e => e
+    | .error _ => fldD eff "identity_info_endpoint" Json.null
+  let url := strD ep "url" ""
+  if !hasSub url "/count/" then none else
+    let hc := fldD ep "http_cache" Json.null
+    let ttl := match hc.getObjVal? "default_ttl" with
+      | .ok v => v.compress
+      | .error _ => ""
+    let retry := match ep.getObjVal? "retry" with
+      | .ok .null => none
+      | .ok v => some v.compress
+      | .error _ => none
+    let mechTtl := match eff.getObjVal? "cache_ttl" with
+      | .ok v => Client.positive v.compress
+      | .error _ => goType == "genericContextualizer"     -- its constructor's default: 10s
+    some { client := ⟨retry, boolD hc "enabled" false, ttl⟩, peer := "SERVER", get := strD ep "method" "POST" == "GET",
+           body := strD eff "payload" "" != "", busy := hasSub url "/count/busy/", mechTtl := mechTtl }
+
 structure Counters where
+  observed : Nat := 0
+  reused : Nat := 0
+  retried : Nat := 0
   inherited : Nat := 0
   fresh : Nat := 0
   alias : Nat := 0
@@ -174,6 +204,8 @@ def run (c : Json) : E Json := do
   let mut specs : List Json := []
   let mut zeros : List Json := []
   let mut wantL : List Json := []     -- per operation: what an execution has to render (`wants`), `null` otherwise
+  let mut callL : List Json := []     -- per operation: the requests the endpoint has to receive, `null` if not observed
+  let mut cst : List ((Nat × String) × Client.St) := []   -- per (object, request): what its executions have left behind
   for op in ← arr c "ops" do
     let k ← str op "op"
     if k == "create" then
@@ -224,10 +256,25 @@ def run (c : Json) : E Json := do
         n := { n with namedTemplates := n.namedTemplates + nt,
                       namedFailing := n.namedFailing + (if boolD w "fails" false then 1 else 0) }
         wantL := wantL ++ [w]
+        -- the upstream traffic is a function of the object's own configuration and of its own earlier executions
+        let goType := ((st.σ.insts[h.inst]?).map (·.typ)).getD ""
+        let mut calls : List (String × Json) := []
+        match clientObj goType (unflatten (effective st.σ h.inst)) with
+        | some o =>
+          let key := (h.inst, (fldD op "req" (Json.mkObj [])).compress)
+          let s₀ := ((cst.find? fun e => e.1 == key).map (·.2)).getD {}
+          let r := Client.exec o s₀
+          cst := (key, r.2) :: cst.filter fun e => e.1 != key
+          n := { n with observed := n.observed + 1, reused := n.reused + (if r.1 == 0 then 1 else 0),
+                        retried := n.retried + (if r.1 > 1 then 1 else 0) }
+          calls := [("calls", jnat r.1)]
+          callL := callL ++ [Json.mkObj [("n", jnat r.1), ("fails", o.busy)]]
+        | none => callL := callL ++ [Json.null]
         out := out ++ [Json.mkObj ([("ran", Json.bool true), ("ref", Json.bool true)] ++ (if w.isNull then [] else [("rendered", Json.bool true)]) ++
-          [("changed", changed st)])]
+          calls ++ [("changed", changed st)])]
       | _ =>
         wantL := wantL ++ [Json.null]
+        callL := callL ++ [Json.null]
         out := out ++ [Json.mkObj [("ran", false), ("changed", changed st)]]
     else if k == "par" then
       -- `n` concurrent executions round-robin over the handles `hs`, interleaved with the creation of the variants
@@ -311,13 +358,17 @@ def run (c : Json) : E Json := do
             created := created ++ [Json.mkObj [("st", "notfound")]]
         out := out ++ [Json.mkObj [("ran", true), ("par_ok", ok), ("created", jarr created), ("changed", changed st)]]
     else throw s!"unknown op {k}"
-    if k != "exec" then wantL := wantL ++ [Json.null]
+    if k != "exec" then
+      wantL := wantL ++ [Json.null]
+      callL := callL ++ [Json.null]
   return Json.mkObj [("res", jarr out), ("eff", jarr effs), ("eff_spec", jarr specs), ("zero_ignored", jarr zeros),
-    ("want", jarr wantL),
+    ("want", jarr wantL), ("want_calls", jarr callL),
     ("stats", Json.mkObj [("alias", jnat n.alias), ("variant", jnat n.variant), ("errors", jnat n.errors),
       ("inherited_refs", jnat n.inherited), ("fresh_refs", jnat n.fresh), ("reads", jnat n.reads),
       ("interleaved_steps", jnat n.steps), ("variants_created_interleaved", jnat n.concCreated),
       ("stuck_programs", jnat n.stuck), ("zero_ignored_overrides", jnat n.zeroIgnored),
+      ("executions_with_observed_upstream", jnat n.observed), ("observed_executions_reusing", jnat n.reused),
+      ("observed_executions_retrying", jnat n.retried),
       ("named_templates_rendered", jnat n.namedTemplates), ("named_templates_failing_alone", jnat n.namedFailing),
       ("cells", jnat st.σ.cells.length), ("instances", jnat st.σ.insts.length)])]
 
